@@ -152,6 +152,24 @@ func (w *World) violate(prop, key, format string, a ...any) {
 		w.order = append(w.order, prop)
 		w.h.Add("VIOLATION " + prop + "/" + key)
 	}
+	// C18: with faults injected, a broken guarantee of any of the stream,
+	// lifecycle, shutdown or descriptor monitors is a failure-isolation
+	// violation (the monitors themselves exempt a victim from completeness)
+	if len(w.p.Faults) > 0 && w.viol["C18"] == nil {
+		switch prop {
+		case "C01", "C02", "C04", "C05", "C06", "C07":
+			w.viol["C18"] = &runner.Violation{Key: "C18/" + prop + "/" + key, Msg: "with fault " + faultDesc(w.p.Faults) + ": " + fmt.Sprintf(format, a...)}
+			w.order = append(w.order, "C18")
+		}
+	}
+}
+
+func faultDesc(fs []vsys.Fault) string {
+	s := ""
+	for _, f := range fs {
+		s += fmt.Sprintf("[%s #%d on %s -> %s]", f.Site, f.Nth, f.Class, unix.ErrnoName(unix.Errno(f.Errno)))
+	}
+	return s
 }
 
 func (w *World) logf(format string, a ...any) { w.h.Add(fmt.Sprintf(format, a...)) }
@@ -211,6 +229,12 @@ func (w *World) nonTrivial() bool {
 		return w.openedN > 0
 	case "C07":
 		return w.probes["fd-number-reused"] > 0 || w.closedN > 0
+	case "C18":
+		n := 0
+		for _, v := range w.faults {
+			n += v
+		}
+		return n > 0 && w.openedN > 1
 	}
 	return w.openedN > 0
 }
@@ -723,6 +747,11 @@ func (w *World) finish() {
 	}
 	for k, v := range w.k.FaultsFired {
 		w.faults[k] += v
+	}
+	if w.prop == "C18" {
+		for site, n := range w.k.SiteCalls() {
+			w.probes["calls:"+site] = n
+		}
 	}
 	stuck := w.s.Teardown()
 	if len(stuck) > 0 && w.viol["C06"] == nil && w.viol[w.prop] == nil {
